@@ -1411,7 +1411,8 @@ def isunresolvable(t: tp.Any) -> bool:
         >>> isunresolvable(...)
         True
     """
-    return t in _UNRESOLVABLE
+    # (Subscripted callables and `type[...]` have the origin `Callable`: nothing to convert.)
+    return t in _UNRESOLVABLE or origin(t) is tp.Callable
 
 
 _UNRESOLVABLE = (
